@@ -211,6 +211,7 @@ def _write_replay(pid, seed, idx, failure):
 def run_property(pid, tier, seed=None):
     seed = common.SEED if seed is None else seed
     t0 = time.time()
+    os.environ["VERIF_TIER_ACTIVE"] = tier      # inherited by the shard processes
     prop = load_prop(pid)
     b = prop.budget(tier)
     nshards = int(os.environ.get("VERIF_SHARDS", b.get("shards", 16)))
